@@ -676,6 +676,28 @@ def s_valerr_else(e, x):
     return y
 
 
+def s_val_guard_same(e, x):
+    """validate the carrier in place and return early on failure; the SAME variable goes on to the sink, so a
+    decoration that skips this step lets unvalidated data through"""
+    b = e.tmp("bool"); e.f.validate(b, x)
+    with e.f.if_var(b, neg=True):
+        e.f.ret_zero()
+    return x
+
+
+def s_valerr_guard_same(e, x):
+    er = e.tmp("error"); e.f.validate_err(er, x)
+    with e.f.if_errnil(er, neg=True):
+        e.f.ret_zero()
+    return x
+
+
+def s_san_same(e, x):
+    """x = sanitize(x): the carrier itself is overwritten with the sanitized value"""
+    e.f.sanitize(x, x)
+    return x
+
+
 def h_check(P):
     f = P.func("check", params=[("a", "string")], results=["bool"])
     f.var("r", "bool")
@@ -793,6 +815,9 @@ STEPS = {
     "valerr_guard": ("S", "S", "role", s_valerr_guard),
     "valerr_then": ("S", "S", "role", s_valerr_then),
     "valerr_else": ("S", "S", "role", s_valerr_else),
+    "val_guard_same": ("S", "S", "role", s_val_guard_same),
+    "valerr_guard_same": ("S", "S", "role", s_valerr_guard_same),
+    "san_same": ("S", "S", "role", s_san_same),
     "val_helper": ("S", "S", "role", s_val_helper),
     "val_after": ("S", "S", "role", s_val_after),
 }
@@ -918,5 +943,14 @@ def build_chain(chain, sink_kind="sink", name="p", source_kind="source", probes=
         f.sink(x)
     elif sink_kind == "bt":
         f.bt([x])
-    P.meta = {"chain": [[s, d] for s, d in chain], "final": ts, "src_in_go": src_in_go, "sink_in_go": sink_in_go}
+    elif sink_kind == "bt_arg1":
+        f.bt(["_", x])
+    elif sink_kind == "bt_helper" and x in f.vars:
+        h = P.func("btwrap", params=[("in", TYPES[ts])])
+        h.bt(["in"])
+        f.call([], "btwrap", [x])
+    elif sink_kind == "bt_helper":
+        f.bt([x])
+    P.meta = {"chain": [[s, d] for s, d in chain], "final": ts, "src_in_go": src_in_go, "sink_in_go": sink_in_go,
+              "sink_kind": sink_kind}
     return P
